@@ -251,9 +251,23 @@ func dRel(g *G) {
 		ev := GEv{K: "g", Gk: "mono", Op: "round", Ctx: c}
 		neg := base.N
 		var xs []Dec
+		reform := g.R.Intn(3) == 0 // the same ascending values in differing representations (trailing zeros, extra low digits)
 		for j := 0; j < 8; j++ {
-			xs = append(xs, finDec(neg, b, base.E))
-			b = new(bigIntT).Add(b, bigInt(int64(g.R.between(0, 3))))
+			xj := finDec(neg, b, base.E)
+			if reform {
+				z := g.R.between(0, 3)
+				bb := new(bigIntT).Mul(b, new(bigIntT).Exp(bigInt(10), bigInt(int64(z)), nil))
+				if z > 0 && g.R.bool() {
+					bb.Add(bb, bigInt(int64(g.R.between(0, 9)))) // still below the next element, which is at least b+1
+				}
+				xj = finDec(neg, bb, base.E-z)
+			}
+			xs = append(xs, xj)
+			step := g.R.between(0, 3)
+			if reform && step == 0 {
+				step = 1
+			}
+			b = new(bigIntT).Add(b, bigInt(int64(step)))
 		}
 		if neg { // ascending order of negative numbers: decreasing magnitude
 			for l, r := 0, len(xs)-1; l < r; l, r = l+1, r-1 {
